@@ -1,4 +1,6 @@
 import ChfVerif.Lemmas.CdrFile
+import ChfVerif.Model.CodecState
+import ChfVerif.Gen.AsnGlobals
 /-
   C14 — the CDR file codec round-trips every well-formed file structure.
 
@@ -22,6 +24,38 @@ theorem C14_injective (f g : File) (hf : f.WF) (hg : g.WF) (h : encodeFile f = e
   have := C14 f hf
   rw [h, C14 g hg] at this
   exact (Option.some.inj this).symm
+
+/-! ### call after call, goroutine by goroutine
+
+`Encoding` and `Decoding` are methods of a value; what could make the file written now depend on a file written before (or on
+one being written by another goroutine) is a package-level variable of `cdr/cdrFile` — a recycled buffer, a pool, a cached
+header.  `Gen.cdrFileGlobals` is the regenerated list of these variables with what the source does to them outside `init`
+(the same extractor as for `cdr/asn`); `Model/CodecState.lean` turns "every one of them is frozen" into history and schedule
+independence of any procedure that respects the list.  (The stream side: files written by 16 goroutines at once, and a file
+written after a write that failed.) -/
+
+open Chf.CodecState in
+theorem C14_codec_globals_frozen : allFrozen Gen.cdrFileGlobals = true := by decide
+
+open Chf.CodecState in
+/-- any procedure over the package-level store that respects the regenerated facts and, from the initial store, writes and
+    reads back like the model brings every well-formed file back after ANY history of earlier calls (well-formed or not,
+    successful or failed) -/
+theorem C14_history {V : Type} (impl : Store V → File → Option File × Store V)
+    (hr : Respects Gen.cdrFileGlobals impl) (g : Store V) (hcorr : ∀ f, (impl g f).1 = decodeFile (encodeFile f))
+    (hist : List File) (f : File) (hw : f.WF) :
+    (impl (after impl g hist) f).1 = some f := by
+  rw [history_independent C14_codec_globals_frozen hr g hist, hcorr]
+  exact C14 f hw
+
+open Chf.CodecState in
+/-- goroutines: whatever the scheduler does, every writer ends where it ends when it runs alone, and the package-level
+    store is untouched -/
+theorem C14_schedule {V L : Type} (micro : Micro V L) (hr : RespectsMicro Gen.cdrFileGlobals micro) (g : Store V)
+    (sched : List Nat) (ls : Nat → L) :
+    (runSched micro g ls sched).2 = g ∧
+    ∀ k, (runSched micro g ls sched).1 k = runAlone micro g (ls k) (sched.count k) :=
+  schedule_independent C14_codec_globals_frozen hr g sched ls
 
 /-- non-vacuity: a file with only the *low* release identifier at 7, a filter, an extension and a
     record with release identifier 7 is well-formed (this is the shape the unrepaired decoder got wrong). -/
